@@ -6,6 +6,8 @@ import (
 	"go/token"
 	"go/types"
 
+	"golang.org/x/tools/go/cfg"
+
 	"gnetlint/core"
 	"gnetlint/flow"
 )
@@ -1003,4 +1005,136 @@ func runC15_7(c *core.Ctx) {
 				"the load balancer is asked with `"+exprStr(call.Args[0])+"`, which is not the peer's address (RemoteAddr(), the accepted sockaddr, the dial target) : with the source-address hash the loop no longer is a function of the remote address – all connections of one local address land on one loop, and one remote can be served by different loops")
 		}
 	}
+}
+
+func init() {
+	register(&core.Rule{ID: "C15.8", Prop: "C15", MinSites: 2,
+		Desc: "iterate reaches every registered loop: baseLoadBalancer.iterate walks the whole eventLoops slice (a range over it, or a counted loop from 0 to its length), hands each element with its index to the visitor, and leaves the walk early only where the visitor answered false",
+		Run:  runC15_8})
+	alias("C06", "C06.15", "C15.8", "the stop sequence sends its exit task to, and closeEventLoops closes, the loops that iterate visits: a loop it skips keeps polling and Run never returns")
+	alias("C19", "C19.10", "C15.8", "CountConnections and Stop act on the loops that iterate visits")
+}
+
+func runC15_8(c *core.Ctx) {
+	f := getFn(c, "", "baseLoadBalancer.iterate")
+	loops := c.P.Field("", "baseLoadBalancer", "eventLoops")
+	if f == nil || !c.Need("eventLoops", loops) {
+		return
+	}
+	visitor := f.param(0)
+	isLoops := func(e ast.Expr) bool { return flow.FieldOf(f.Info, seeThrough(f, e)) == loops }
+	var body *ast.BlockStmt
+	var isElem func(e ast.Expr) bool
+	var isIdx func(e ast.Expr) bool
+	var at token.Pos
+	ast.Inspect(f.Decl.Body, func(n ast.Node) bool {
+		if rs, ok := n.(*ast.RangeStmt); ok && isLoops(rs.X) && body == nil {
+			ko, vo := flow.ObjOf(f.Info, rs.Key), flow.ObjOf(f.Info, rs.Value)
+			body, at = rs.Body, rs.Pos()
+			isIdx = func(e ast.Expr) bool { return ko != nil && flow.ObjOf(f.Info, e) == ko }
+			isElem = func(e ast.Expr) bool {
+				if vo != nil && flow.ObjOf(f.Info, e) == vo {
+					return true
+				}
+				ie, ok := ast.Unparen(e).(*ast.IndexExpr)
+				return ok && isLoops(ie.X) && isIdx(ie.Index)
+			}
+		}
+		return true
+	})
+	if body == nil {
+		for iv, fs := range countedLoops(f, loops) {
+			iv := iv
+			start := int64(1)
+			if init, ok := fs.Init.(*ast.AssignStmt); ok {
+				for k, l := range init.Lhs {
+					if flow.ObjOf(f.Info, l) == iv {
+						if cv := flow.ConstOf(f.Info, init.Rhs[k]); cv != nil {
+							start, _ = constant.Int64Val(constant.ToInt(cv))
+						}
+					}
+				}
+			}
+			if start != 0 {
+				continue
+			}
+			body, at = fs.Body, fs.Pos()
+			isIdx = func(e ast.Expr) bool { return flow.ObjOf(f.Info, e) == iv }
+			isElem = func(e ast.Expr) bool {
+				ie, ok := seeThrough(f, e).(*ast.IndexExpr)
+				return ok && isLoops(ie.X) && isIdx(ie.Index)
+			}
+		}
+	}
+	if body == nil {
+		c.Violate(f.Name, "walk over eventLoops", f.Decl.Pos(), "iterate no longer walks the whole eventLoops slice (no range over it and no counted loop from 0 to its length): loops are skipped by everything built on iterate – the stop sequence, closeEventLoops, CountConnections")
+		return
+	}
+	c.Ok(f.Name, "walk over eventLoops", at, "all elements")
+	// the visitor gets (index, element)
+	called := false
+	for _, call := range callsIn(body, false) {
+		if flow.ObjOf(f.Info, call.Fun) == types.Object(visitor) && len(call.Args) == 2 {
+			called = true
+			c.Check(isIdx(call.Args[0]) && isElem(call.Args[1]), f.Name, "visitor arguments", call.Pos(), "index and element of this step",
+				"the visitor is not handed the index and the element of the current step: a loop is visited under another one's index, or one loop twice and another never")
+		}
+	}
+	if !called {
+		c.Violate(f.Name, "visitor arguments", at, "the walk does not call the visitor")
+		return
+	}
+	// early exits only where the visitor answered false: at every return of iterate either the walk was
+	// exhausted (the edge from the loop head to what follows the loop) or the visitor's last answer was false
+	const fFalse, fDone = 1, 1 // one fact: "the walk may end here" – exhausted, or stopped by the visitor
+	var loopStmt ast.Stmt
+	var loopCond ast.Expr
+	ast.Inspect(f.Decl.Body, func(n ast.Node) bool {
+		switch y := n.(type) {
+		case *ast.RangeStmt:
+			if y.Body == body {
+				loopStmt = y
+			}
+		case *ast.ForStmt:
+			if y.Body == body {
+				loopStmt, loopCond = y, y.Cond
+			}
+		}
+		return true
+	})
+	p := &flow.Problem{Must: true}
+	p.Edge = func(e *flow.Edge, in uint64) uint64 {
+		if e.Cond != nil && e.Tag == nil {
+			if call, ok := seeThroughAt(f, e.Cond, e.Cond).(*ast.CallExpr); ok && flow.ObjOf(f.Info, call.Fun) == types.Object(visitor) {
+				if e.Sense {
+					in &^= fFalse
+				} else {
+					in |= fFalse
+				}
+			}
+			if loopCond != nil && e.Cond.Pos() >= loopCond.Pos() && e.Cond.End() <= loopCond.End() && !e.Sense {
+				in |= fDone
+			}
+		}
+		if e.Cond == nil && e.From.Kind == cfg.KindRangeLoop && e.From.Stmt == loopStmt && e.To.Kind == cfg.KindRangeDone {
+			in |= fDone
+		}
+		return in
+	}
+	p.Node = func(b *flow.Block, i int, n ast.Node, in uint64) uint64 {
+		for _, call := range flow.Calls(n) {
+			if flow.ObjOf(f.Info, call.Fun) == types.Object(visitor) {
+				in &^= fFalse // a new question; its answer is read off the edges
+			}
+		}
+		return in
+	}
+	sol := f.Graph().Solve(p)
+	okExit := true
+	sol.AtExit(func(b *flow.Block, facts uint64) {
+		if facts&(fFalse|fDone) == 0 {
+			okExit = false
+		}
+	})
+	c.Check(okExit, f.Name, "early exit", at, "only on the visitor's false", "the walk over the event loops can end before the last loop although the visitor did not ask for it: the remaining loops are never visited")
 }
